@@ -1,7 +1,7 @@
 SPECIFICATION Spec
 CONSTANTS
   MaxObjs = 3
-  UIds <- UAll
+  UIds <- UMid
   RowSet <- RowsPairwise
   AllowDup = FALSE
   DedupInput = FALSE
